@@ -52,6 +52,24 @@ def hostile_lines():
     add("neg-inf-outpoint", raw=json.dumps(N["sign-segwit"]).replace(str(N["sign-segwit"]["message"]["outpointValue"]), "-Infinity").encode())
     add("dup-keys", raw=b"{\"command\":\"version\",\"command\":\"getPubKey\",\"version\":5}")
     add("dup-keys2", raw=b"{\"command\":\"getPubKey\",\"version\":5,\"keyId\":\"m/44'/0'/0'/0/0\",\"keyId\":5}")
+    # the depths just below what the JSON parser of this interpreter accepts: parsed, but perhaps
+    # too deep for something else done with the value (printing it in a log line, copying it)
+    lo, hi = 10, 400000
+    while lo + 1 < hi:
+        mid = (lo + hi) // 2
+        try:
+            json.loads("[" * mid + "]" * mid)
+            lo = mid
+        except (RecursionError, ValueError):
+            hi = mid
+    for depth in list(range(max(10, lo - 60), lo + 3)) + [lo // 2, lo // 3, (2 * lo) // 3]:
+        add("deep-window-extra-%d" % depth, raw=b"{\"command\":\"getPubKey\",\"version\":5,\"keyId\":\"m/44'/0'/0'/0/0\",\"x\":"
+            + b"[" * depth + b"]" * depth + b"}")
+    for depth in range(max(10, lo - 60), lo + 3, 6):
+        add("deep-window-keyid-%d" % depth, raw=b"{\"command\":\"getPubKey\",\"version\":5,\"keyId\":"
+            + b"[" * depth + b"]" * depth + b"}")
+        add("deep-window-obj-%d" % depth, raw=b"{\"command\":\"blockchainState\",\"version\":5,\"x\":"
+            + b"{\"a\":" * depth + b"1" + b"}" * depth + b"}")
     for depth in (1000, 100000):
         add("deep-array-%d" % depth, raw=b"[" * depth + b"]" * depth)
         add("deep-object-%d" % depth, raw=b"{\"a\":" * depth + b"1" + b"}" * depth)
@@ -295,6 +313,10 @@ class C03(Check):
 
     # ------------------------------------------------------------------
     def fresh(self, v1=False, pending=False):
+        if not getattr(self, "_logging_on", False):
+            from .. import env
+            env.logging_as_in_production(True)
+            self._logging_on = True
         dev = PowHsm(seed=b"c03")
         w = World(dev)
         proto = harness.make_protocol(w, v1=v1)
